@@ -34,7 +34,10 @@ impl Record {
         };
 
         let quality_scores = if record.quality_scores().is_empty() {
-            QualityScores::default()
+            // § 10.6 "Mapped reads": missing quality scores are stored as 0xff for each base, which
+            // is also what the reader maps back to "missing".
+            const MISSING: u8 = 0xff;
+            QualityScores::from(vec![MISSING; record.sequence().len()])
         } else {
             if bam_flags.is_unmapped() {
                 cram_flags.insert(Flags::QUALITY_SCORES_ARE_STORED_AS_ARRAY);
